@@ -83,7 +83,9 @@ def Good (s : S) (c : Call) : Prop :=
 
 theorem good_crcShared {s : S} (h : Inv s) (k : Nat) (data : Bits) (little : Bool) :
     Good s (.crcShared k data little) := by
-  unfold Good step pureOut argsAfter
+  show (stepCrcShared s k data little).2.1 = pureOut (.crcShared k data little) ∧ Inv (stepCrcShared s k data little).1
+    ∧ (stepCrcShared s k data little).2.2 = .crcShared k data little
+  unfold stepCrcShared pureOut
   cases hk : sharedCfgs[k]? with
   | none => exact ⟨rfl, h, rfl⟩
   | some ct =>
@@ -94,13 +96,15 @@ theorem good_crcShared {s : S} (h : Inv s) (k : Nat) (data : Bits) (little : Boo
       have hmem : (cfg, true) ∈ sharedCfgs := List.mem_of_getElem? hk
       obtain ⟨e, he⟩ := find_exists (h.sharedTables _ hmem rfl)
       have ht := find_table h.cache he
-      simp only [he, Option.map_some, Option.isNone_some, Bool.and_false, ite_true, if_true,
+      simp only [he, Option.map_some, Option.isNone_some, Bool.and_false, if_true,
         Bool.false_eq_true, if_false, ht]
       exact ⟨rfl, h.scratch _ _ _ _, rfl⟩
 
 theorem good_crcNew {s : S} (h : Inv s) (cfg : CrcCfg) (table : Bool) (data : Bits) (little : Bool) :
     Good s (.crcNew cfg table data little) := by
-  unfold Good step pureOut argsAfter
+  show (stepCrcNew s cfg table data little).2.1 = pureOut (.crcNew cfg table data little)
+    ∧ Inv (stepCrcNew s cfg table data little).1 ∧ (stepCrcNew s cfg table data little).2.2 = .crcNew cfg table data little
+  unfold stepCrcNew pureOut
   cases table with
   | false => exact ⟨rfl, h, rfl⟩
   | true =>
@@ -110,34 +114,48 @@ theorem good_crcNew {s : S} (h : Inv s) (cfg : CrcCfg) (table : Bool) (data : Bi
 
 theorem good_crcKept {s : S} (h : Inv s) (cfg : CrcCfg) (table : Bool) (data : Bits) (little : Bool) :
     Good s (.crcKept cfg table data little) := by
-  unfold Good step pureOut argsAfter
+  show (stepCrcKept s cfg table data little).2.1 = pureOut (.crcKept cfg table data little)
+    ∧ Inv (stepCrcKept s cfg table data little).1 ∧ (stepCrcKept s cfg table data little).2.2 = .crcKept cfg table data little
+  unfold stepCrcKept pureOut
+  obtain ⟨h1, h2, h3⟩ := cachedTable_spec h.cache cfg.width cfg.poly
   cases table with
   | false =>
-    simp only [Bool.false_eq_true, if_false]
+    simp only [Bool.false_eq_true, if_false, Bool.false_and]
     exact ⟨rfl, (h.withCache _ h.cache (fun _ h => h)).scratch _ _ _ _, rfl⟩
   | true =>
-    obtain ⟨h1, h2, h3⟩ := cachedTable_spec h.cache cfg.width cfg.poly
-    simp only [if_true, h1]
+    simp only [if_true, h1, Bool.true_and]
     refine ⟨rfl, ?_, rfl⟩
-    split
-    · exact (h.withCache _ h.cache (fun _ h => h)).scratch _ _ _ _
-    · exact (h.withCache _ h2 h3).scratch _ _ _ _
+    cases hkn : (s.kept.any fun e => e.1 == cfg && e.2.1 == true) with
+    | true => exact (h.withCache _ h.cache (fun _ h => h)).scratch _ _ _ _
+    | false => exact (h.withCache _ h2 h3).scratch _ _ _ _
 
 theorem good_ham {s : S} (h : Inv s) (i : Nat) (x : Bits) :
     Good s (.hamGenerate i x) ∧ Good s (.hamCheck i x) := by
-  refine ⟨?_, ?_⟩ <;> (unfold Good step pureOut argsAfter; rw [h.codes]; exact ⟨rfl, h, rfl⟩)
+  refine ⟨?_, ?_⟩
+  · show (codeOp s.codes i (·.k) x (fun C => Out.bits (C.gen x))) = pureOut (.hamGenerate i x) ∧ Inv s ∧ _ = _
+    rw [h.codes]; exact ⟨rfl, h, rfl⟩
+  · show (codeOp s.codes i (·.n) x (fun C => Out.flag (C.check x))) = pureOut (.hamCheck i x) ∧ Inv s ∧ _ = _
+    rw [h.codes]; exact ⟨rfl, h, rfl⟩
 
 theorem good_hamCac {s : S} (h : Inv s) (i : Nat) (w : Bits) : Good s (.hamCac i w) := by
-  unfold Good step pureOut argsAfter
+  show (stepHamCac s i w).2.1 = pureOut (.hamCac i w) ∧ Inv (stepHamCac s i w).1 ∧ (stepHamCac s i w).2.2 = argsAfter (.hamCac i w)
+  unfold stepHamCac pureOut argsAfter
   rw [h.codes]
   by_cases hi : i ≥ 5
   · simp only [hi, if_true]; exact ⟨rfl, h, rfl⟩
   · simp only [hi, if_false]
-    split <;> exact ⟨by simp_all, h, rfl⟩
+    split
+    · next ok b heq => simp only [heq]; exact ⟨rfl, h, rfl⟩
+    · next o hne =>
+      refine ⟨rfl, h, ?_⟩
+      split
+      · next ok b heq => exact absurd heq (hne ok b)
+      · rfl
 
 theorem good_getToken {s : S} (h : Inv s) (req : Bool) (name : Key) (attrs : List (Key × Option Nat)) :
     Good s (.getToken req name attrs) := by
-  unfold Good step pureOut argsAfter initTokens
+  show Out.tok (getTokenAux s.attrDefs name attrs (if req then s.tokReq else s.tokAns) 0).1 = pureOut (.getToken req name attrs) ∧ Inv s ∧ _ = _
+  unfold pureOut initTokens
   rw [h.attrDefs, h.tokReq, h.tokAns]
   exact ⟨rfl, h, rfl⟩
 
